@@ -252,7 +252,11 @@ theorem fragC_scalar {env : Env} {file : AFile} {G : List String} {Γ : Ctx} {K 
       | some ft => rw [hf] at hcase; simp only at hcase; exact scalarEq_flat hcase
   | toDyn tr forTy e ty => simp [fragC] at h
   | dynCall tr m recv args ty => simp [fragC] at h
-  | go e ty => simp [fragC] at h
+  | go e ty =>
+    simp only [fragC, goOK] at h
+    cases hety : e.ty <;> rw [hety] at h <;> try (cases h; done)
+    simp only [Bool.and_eq_true] at h
+    exact scalarEq_flat h.1.2
   | proj e idx ty =>
     simp only [fragC, Bool.and_eq_true] at h
     obtain ⟨_, hcase⟩ := h
@@ -265,29 +269,30 @@ theorem fragC_scalar {env : Env} {file : AFile} {G : List String} {Γ : Ctx} {K 
     | _ => rw [hety] at hcase; exact absurd hcase (by simp)
 
 theorem bindSimple_shape {env : Env} {file : AFile} {G : List String} {Γ : Ctx} {K : KCtx} {v : CExpr} (x : String)
-    (h : fragC env file G Γ K v = true) :
+    (h : fragC env file G Γ K v = true) (hgo : isGoC v = false) :
     compileBindSimple env x v = [.varDecl (vn x) (goTy v.annTy) (some (compileCExpr env v))] := by
   have := cexprTastTy_frag h
-  cases v <;> first | (simp [fragC] at h; done) | simp only [compileBindSimple, cexprTy, this]
+  cases v <;> first | (simp [fragC] at h; done) | (simp [isGoC] at hgo; done) | simp only [compileBindSimple, cexprTy, this]
 
 /-- the rest of a `let`: the binding `x` has just been made by the prefix `var x … ; d1`, which
     left `D1` (declarations of `d1`) on top of it -/
 theorem let_body {env : Env} {η η1 : Hp} {file : AFile} {G : List String} {P : Prog} {F : GFile} {n : Nat}
     (ha : SimA env file G P F n) (m : Mode) (st2 : St) (x : String) (tx : Ty) (body : AExpr) (Γ : Ctx) (K : KCtx) (ρ : Sem.Env)
-    (gρ : GEnv) (gw : GWorld) (Bad : List String) (T : GTy) (init : Option GExpr) (d1 : List GStmt)
+    (gρ : GEnv) (gw : GWorld) (Bad : List String) (Pre : List GStmt) (dsP : List String)
     (D1 : GEnv) (vv : Val) (gv : GVal) (w1 : World) (gw1 : GWorld)
-    (hpre : BlockS F gρ gw (.varDecl (vn x) T init :: d1) (.ok (D1 ++ (vn x, gv) :: gρ, .normal) gw1))
-    (hD1 : ∀ y, y ∈ keys D1 → y ∈ ndDecls d1)
-    (hinv : GInv Bad ((.varDecl (vn x) T init :: d1) ++ (compileA env m st2 body).1) gρ)
+    (hdP : ndDecls Pre = vn x :: dsP)
+    (hpre : BlockS F gρ gw Pre (.ok (D1 ++ (vn x, gv) :: gρ, .normal) gw1))
+    (hD1 : ∀ y, y ∈ keys D1 → y ∈ dsP)
+    (hinv : GInv Bad (Pre ++ (compileA env m st2 body).1) gρ)
     (hrel0 : EnvRel env η Γ ρ gρ) (hle1 : η.le η1) (hkrel : KRel K ρ) (h3 : VRel env η1 vv tx gv) (h4 : HasTy env η1 vv tx) (hw1 : WRel env η1 w1 gw1)
     (hfb : fragA env file G ((x, tx) :: Γ) (eraseK K x) body = true) (htgt : TgtOK m Γ gρ (aTy body)) (hus : "_" ∈ Bad)
     (hfx : FCtx file G Bad η) (hcal : ∀ c, c ∈ calleesA (x :: Γ.map (·.1)) body → c ∈ Bad) :
-    Concl env η F ((.varDecl (vn x) T init :: d1) ++ (compileA env m st2 body).1) m gρ gw (aTy body)
+    Concl env η F (Pre ++ (compileA env m st2 body).1) m gρ gw (aTy body)
       (Sem.eval n P ((x, vv) :: ρ) w1 body.toExpr) := by
   have hrel : EnvRel env η1 Γ ρ gρ := hrel0.mono hle1
-  have hdecls : ndDecls ((GStmt.varDecl (vn x) T init :: d1) ++ (compileA env m st2 body).1) =
-      vn x :: (ndDecls d1 ++ ndDecls (compileA env m st2 body).1) := by
-    rw [ndDecls_append, ndDecls_varDecl]; rfl
+  have hdecls : ndDecls (Pre ++ (compileA env m st2 body).1) =
+      vn x :: (dsP ++ ndDecls (compileA env m st2 body).1) := by
+    rw [ndDecls_append, hdP]; rfl
   have hnd := hinv.nodup; rw [hdecls] at hnd
   obtain ⟨hxnot, hnd'⟩ := List.nodup_cons.mp hnd
   have hfresh : ¬ vn x ∈ keys gρ := hinv.disj _ (by rw [hdecls]; exact List.mem_cons_self)
@@ -306,7 +311,7 @@ theorem let_body {env : Env} {η η1 : Hp} {file : AFile} {G : List String} {P :
   have hinv2 : GInv Bad (compileA env m st2 body).1 (D1 ++ (vn x, gv) :: gρ) := by
     have := GInv.right (D := D1 ++ [(vn x, gv)]) (U := gρ) hinv rfl (fun y hy => by
       rw [keys_append, List.mem_append] at hy
-      rw [ndDecls_varDecl]
+      rw [hdP]
       rcases hy with hy | hy
       · exact List.mem_cons_of_mem _ (hD1 y hy)
       · simp only [Goml.Dce.keys_cons, Goml.Dce.keys_nil, List.mem_singleton] at hy; subst hy; exact List.mem_cons_self)
@@ -356,7 +361,7 @@ theorem let_body {env : Env} {η η1 : Hp} {file : AFile} {G : List String} {P :
 
 theorem stepA {env : Env} {file : AFile} {G : List String} {P : Prog} {F : GFile} {n : Nat}
     (hc1 : SimC env file G P F (n + 1)) (hv : SimV env file G P F n) (hc : SimC env file G P F n)
-    (ha : SimA env file G P F n) : SimA env file G P F (n + 1) := by
+    (ha : SimA env file G P F n) (hg : SimG env file G P F n) : SimA env file G P F (n + 1) := by
   intro m st e η Γ K ρ w gρ gw Bad hfrag hrel hkrel hw hinv htgt hus hfx hcal
   cases e with
   | ret c =>
@@ -409,7 +414,7 @@ theorem stepA {env : Env} {file : AFile} {G : List String} {P : Prog} {F : GFile
         have hup : post (.assign (rn x)) ((vn x, zero F (goTy v.annTy)) :: gρ) gv = (vn x, gv) :: gρ := by
           simp only [post]; rw [← vn_def]; exact update_cons_self _ _ _ _
         rw [hup] at hb
-        exact let_body ha m d.2 x v.annTy body Γ K ρ gρ gw Bad _ _ d.1 D1 vv gv w1 gw1 (block_cons hvd hb) hD1 hinv hrel hle1 hkrel h3 h4 h5
+        exact let_body ha m d.2 x v.annTy body Γ K ρ gρ gw Bad _ (ndDecls d.1) D1 vv gv w1 gw1 (ndDecls_varDecl _ _ _ _) (block_cons hvd hb) hD1 hinv hrel hle1 hkrel h3 h4 h5
           hfb htgt hus hfx hcalb
       | fail fl w1 =>
         cases fl with
@@ -423,9 +428,44 @@ theorem stepA {env : Env} {file : AFile} {G : List String} {P : Prog} {F : GFile
         | stuck s => intro _; trivial
     · -- `var x T = <expr>; rest`
       have hctl' : isCtl v = false := by simpa using hctl
-      simp only [compileA, hctl', Bool.false_eq_true, if_false, bindSimple_shape x hfv] at hinv ⊢
+      by_cases hgoc : isGoC v = false
+      rotate_left
+      · -- `go f(env); var x struct{} = struct{}{}; rest`
+        cases v <;> simp [isGoC] at hgoc
+        rename_i e ty
+        have hty : ty = .unit := by
+          simp only [fragC, goOK] at hfv
+          cases hety : e.ty <;> rw [hety] at hfv <;> try (cases hfv; done)
+          simp only [Bool.and_eq_true] at hfv
+          exact scalarEq_eq hfv.1.2
+        subst hty
+        simp only [compileA, isCtl, Bool.false_eq_true, if_false, compileBindSimple] at hinv ⊢
+        generalize hst1 : st.check (okBindSimple env (.go e .unit)) = st1 at hinv ⊢
+        obtain ⟨X, hX⟩ := compileGo_isGo env e
+        have hdP : ndDecls [compileGo env e, .varDecl (vn x) .unit (some unitE)] = vn x :: [] := by
+          rw [hX]; simp [ndDecls, ndDeclsOf]
+        have hG := hg e .unit η Γ K ρ w gρ gw Bad hfv hrel hw hinv.goodK hfx hcalv
+        revert hG
+        cases hres : Sem.eval n P ρ w (CExpr.go e .unit).toExpr with
+        | ok vv w1 =>
+          rintro ⟨rfl, η1, hle1, gw1, hs, h5⟩
+          simp only
+          have hvd : StmtS F gρ gw1 (.varDecl (vn x) .unit (some unitE)) (.ok ((vn x, .unit) :: gρ, .normal) gw1) :=
+            stmt_varDecl_some (by simp [absurdTy]) ev_unitv
+          exact let_body ha m st1 x .unit body Γ K ρ gρ gw Bad _ [] [] .unit .unit w1 gw1 hdP
+            (block_cons hs (block_cons hvd block_nil)) (fun y hy => by cases hy) hinv hrel hle1 hkrel (by simp [VRel]) trivial h5
+            hfb htgt hus hfx hcalb
+        | fail fl w1 =>
+          cases fl with
+          | panic k =>
+            rintro ⟨η1, hle1, gw1, hs, h5⟩
+            simp only
+            exact ⟨η1, hle1, gw1, block_cons_fail hs, h5⟩
+          | fuel => intro _; trivial
+          | stuck s => intro _; trivial
+      simp only [compileA, hctl', Bool.false_eq_true, if_false, bindSimple_shape x hfv hgoc] at hinv ⊢
       generalize hst1 : st.check (okBindSimple env v) = st1 at hinv ⊢
-      have hV := hv v η Γ K ρ w gρ gw Bad hctl' hfv hrel hkrel hw hinv.goodK hfx hcalv
+      have hV := hv v η Γ K ρ w gρ gw Bad hctl' hgoc hfv hrel hkrel hw hinv.goodK hfx hcalv
       revert hV
       cases hres : Sem.eval n P ρ w v.toExpr with
       | ok vv w1 =>
@@ -433,7 +473,7 @@ theorem stepA {env : Env} {file : AFile} {G : List String} {P : Prog} {F : GFile
         simp only
         have hvd : StmtS F gρ gw (.varDecl (vn x) (goTy v.annTy) (some (compileCExpr env v)))
             (.ok ((vn x, gv) :: gρ, .normal) gw1) := stmt_varDecl_some (flat_not_absurd hsc) he
-        exact let_body ha m st1 x v.annTy body Γ K ρ gρ gw Bad _ _ [] [] vv gv w1 gw1 (block_cons hvd block_nil)
+        exact let_body ha m st1 x v.annTy body Γ K ρ gρ gw Bad _ [] [] vv gv w1 gw1 (ndDecls_varDecl _ _ _ _) (block_cons hvd block_nil)
           (fun y hy => by cases hy) hinv hrel hle1 hkrel h3 h4 h5 hfb htgt hus hfx hcalb
       | fail fl w1 =>
         cases fl with
@@ -465,7 +505,7 @@ theorem compileA_let (env : Env) (m : Mode) (st : St) (x : String) (v : CExpr) (
 /-- **ordering**: the statements of `v` run to completion — leaving the `Sem` world after `v` and
     the value of `v` in `x` — before any statement of the body; if `v` panics, nothing after it runs -/
 theorem let_order {env : Env} {η : Hp} {file : AFile} {G : List String} {P : Prog} {F : GFile} {n : Nat}
-    (hv : SimV env file G P F n) (hc : SimC env file G P F n)
+    (hv : SimV env file G P F n) (hc : SimC env file G P F n) (hg : SimG env file G P F n)
     (m : Mode) (st : St) (x : String) (v : CExpr) (body : AExpr) (ty : Ty) (Γ : Ctx) (K : KCtx) (ρ : Sem.Env) (w : World)
     (gρ : GEnv) (gw : GWorld) (Bad : List String)
     (hfrag : fragA env file G Γ K (.letE x v body ty) = true) (hrel : EnvRel env η Γ ρ gρ) (hkrel : KRel K ρ) (hw : WRel env η w gw)
@@ -524,8 +564,35 @@ theorem let_order {env : Env} {η : Hp} {file : AFile} {G : List String} {P : Pr
       | fuel => intro _; trivial
       | stuck s => intro _; trivial
   · have hctl' : isCtl v = false := by simpa using hctl
-    simp only [letPrefix, hctl', Bool.false_eq_true, if_false, bindSimple_shape x hfv] at hinvP ⊢
-    have hV := hv v η Γ K ρ w gρ gw Bad hctl' hfv hrel hkrel hw hinvP.goodK hfx hcalv
+    by_cases hgoc : isGoC v = false
+    rotate_left
+    · cases v <;> simp [isGoC] at hgoc
+      rename_i e ty'
+      have hty : ty' = .unit := by
+        simp only [fragC, goOK] at hfv
+        cases hety : e.ty <;> rw [hety] at hfv <;> try (cases hfv; done)
+        simp only [Bool.and_eq_true] at hfv
+        exact scalarEq_eq hfv.1.2
+      subst hty
+      simp only [letPrefix, isCtl, Bool.false_eq_true, if_false, compileBindSimple] at hinvP ⊢
+      have hG := hg e .unit η Γ K ρ w gρ gw Bad hfv hrel hw hinvP.goodK hfx hcalv
+      revert hG
+      cases hres : Sem.eval n P ρ w (CExpr.go e .unit).toExpr with
+      | ok vv w1 =>
+        rintro ⟨rfl, η1, hle1, gw1, hs, h5⟩
+        have hvd : StmtS F gρ gw1 (.varDecl (vn x) .unit (some unitE)) (.ok ((vn x, .unit) :: gρ, .normal) gw1) :=
+          stmt_varDecl_some (by simp [absurdTy]) ev_unitv
+        exact ⟨η1, hle1, _, .unit, gw1, block_cons hs (block_cons hvd block_nil), h5, Goml.Dce.lookup_cons_self _ _ _, by simp [VRel]⟩
+      | fail fl w1 =>
+        cases fl with
+        | panic k =>
+          rintro ⟨η1, hle1, gw1, hs, h5⟩
+          intro rest
+          exact ⟨η1, hle1, gw1, block_cons_fail hs, h5⟩
+        | fuel => intro _; trivial
+        | stuck s => intro _; trivial
+    simp only [letPrefix, hctl', Bool.false_eq_true, if_false, bindSimple_shape x hfv hgoc] at hinvP ⊢
+    have hV := hv v η Γ K ρ w gρ gw Bad hctl' hgoc hfv hrel hkrel hw hinvP.goodK hfx hcalv
     revert hV
     cases hres : Sem.eval n P ρ w v.toExpr with
     | ok vv w1 =>
